@@ -4,7 +4,7 @@
 From PGV Require Import Base.Bytes.
 Open Scope N_scope.
 
-Definition rune := N.
+Notation rune := N (only parsing).
 Definition RuneError : rune := 65533.
 
 Definition cont (b : byte) : bool := (128 <=? b) && (b <=? 191).
